@@ -13,7 +13,7 @@ pub const CHECK: Check = Check {
     run,
     case_fn,
     rule: "cases = (test-case list, base settings without verbose/capture/escape); each case is built under all 8 subsets of {verbose, capture, escape}. Oracles: L(subset build) = L(base build) (pattern vs pattern, symbolic, engine-confirmed); verbose output starts with (?x) or (?ix) and parses under that flag; with capture every group is a capturing group, without it none is; escaped output is ASCII. Non-trivial = the case contains a character that is special under one of the options (whitespace or '#', a non-ASCII scalar) or its output contains a group. Distinct = hash of (test cases, base settings).",
-    assumptions: &["regex-syntax reads (?x) and \\u{..} exactly as the regex engine does (same parser)"],
+    assumptions: &["regex-syntax reads (?x) and \\u{..} exactly as the regex engine does (same parser)", "a differential difference is tolerated only when both builds equal the specification up to listed known findings, each re-verified on its stage signature"],
 };
 
 pub fn case_fn(_sub: &str, case: &Case, stats: &mut Stats) -> Result<(), String> {
@@ -69,10 +69,26 @@ pub fn case_fn(_sub: &str, case: &Case, stats: &mut Stats) -> Result<(), String>
             Ok(None) => {}
             Ok(Some((w, only_opt))) => {
                 stats.confirm();
-                return Err(ctx_msg(format!(
-                    "pattern {:?} and the base build {:?} differ on {:?} (accepted only by the {})",
-                    p, p_base, w, if only_opt { "option build" } else { "base build" }
-                )));
+                // Tolerated only if the whole difference is due to listed known findings: each side
+                // must equal the specification or differ from it exactly by listed signatures
+                // (e.g. the base build carries the KF-merge over-match while the verbose build fell
+                // back to the exact last-resort alternation).
+                let verdict_ok = |c: &Cfg, pat: &str, st: &mut Stats| -> Result<bool, String> {
+                    match crate::spec::judge(&case.tcs, c, pat, None).verdict {
+                        crate::spec::Verdict::Equal => Ok(true),
+                        crate::spec::Verdict::Explained { ids, .. } => {
+                            accept_explained("C06", &ids, case, pat, st)?;
+                            Ok(true)
+                        }
+                        _ => Ok(false),
+                    }
+                };
+                if !(verdict_ok(&cfg, &p, stats)? && verdict_ok(&base, &p_base, stats)?) {
+                    return Err(ctx_msg(format!(
+                        "pattern {:?} and the base build {:?} differ on {:?} (accepted only by the {})",
+                        p, p_base, w, if only_opt { "option build" } else { "base build" }
+                    )));
+                }
             }
             Err(e) if e.starts_with("invalid:") => {
                 return Err(ctx_msg(format!("pattern {:?} is rejected by the regex crate: {}", p, e.lines().last().unwrap_or(""))));
@@ -106,7 +122,7 @@ fn run(ctx: &mut Ctx) {
             ctx.exhaustive(&format!("U1-{}", name), u.subset_count(), &|i| Case::new(u.subset(i + 1), Cfg::default()), &case_fn);
         }
     }
-    let total = ctx.tier.pick(8_000, 150_000);
+    let total = ctx.tier.pick(25_000, 250_000);
     let max_ops = ctx.tier.pick(5, 10);
     let strat = move || {
         case_strategy(&["space", "space", "meta", "marks", "boundary", "abc", "clusters", "digits", "backslash", "cased"], true, W_DEFAULT, max_ops, 5, fix)
